@@ -40,6 +40,7 @@ class FnEntry:
         self.closures = {}
         self.used = False
         self.raw = False
+        self.rewrites = []   # (regex, replacement) rule R20
 
 
 class Overlay:
@@ -101,6 +102,11 @@ def parse_overlay(paths):
                     cur.props = arg.split()
                 elif d == "@raw":
                     cur.raw = True
+                elif d == "@rewrite":
+                    m = re.match(r"/(.*)/\s+=>\s+(.*)$", arg)
+                    if not m:
+                        raise ValueError("bad @rewrite at %s:%d" % (path, ln))
+                    cur.rewrites.append((m.group(1), m.group(2)))
                 elif d == "@ret":
                     cur.ret = arg.strip()
                 elif d == "@rettype":
